@@ -63,6 +63,20 @@ type c07cEnv struct {
 	dropped  bool
 	reps     []database.DB
 	restart  []bool // replica i received an altered transaction: its replicator may retry it forever, an operator restarts it
+	lastLog  map[int]string
+}
+
+// logOnce drops a line that repeats the previous line of the same replica (polling rounds, retries).
+func (e *c07cEnv) logOnce(rep int, f string, a ...interface{}) {
+	m := fmt.Sprintf(f, a...)
+	if e.lastLog == nil {
+		e.lastLog = map[int]string{}
+	}
+	if e.lastLog[rep] == m {
+		return
+	}
+	e.lastLog[rep] = m
+	e.r.Logf("%s", m)
 }
 
 type c07cLogger struct {
@@ -79,9 +93,7 @@ func (l *c07cLogger) Infof(f string, a ...interface{}) {
 			l.env.dropped = true
 		}
 	}
-	if l.env.r != nil {
-		l.env.r.Logf("replicator %d: "+f, append([]interface{}{l.rep}, a...)...)
-	}
+	l.env.logOnce(l.rep, "replicator %d: "+f, append([]interface{}{l.rep}, a...)...)
 }
 func (l *c07cLogger) Errorf(f string, a ...interface{}) {
 	l.env.r.Logf("replicator %d: ERROR "+f, append([]interface{}{l.rep}, a...)...)
@@ -172,7 +184,7 @@ func (s *c07cStream) Send(req *schema.ExportTxRequest) error {
 	// ---- what ImmuServer.exportTx does
 	bs, mayID, mayAlh, err := e.prim.ExportTxByID(s.ctx, req)
 	if rs := req.ReplicaState; rs != nil {
-		r.Logf("primary: replica %d asks for tx %d, reports committed %d precommitted %d (%x) -> %d bytes, may commit up to %d, err %v", s.rep, req.Tx, rs.CommittedTxID, rs.PrecommittedTxID, rs.PrecommittedAlh[:min(4, len(rs.PrecommittedAlh))], len(bs), mayID, err)
+		e.logOnce(s.rep, "primary: replica %d asks for tx %d, reports committed %d precommitted %d (%x) -> %d bytes, may commit up to %d, err %v", s.rep, req.Tx, rs.CommittedTxID, rs.PrecommittedTxID, rs.PrecommittedAlh[:min(4, len(rs.PrecommittedAlh))], len(bs), mayID, err)
 	}
 	if err != nil {
 		s.err = status.Error(codes.Unknown, err.Error())
@@ -247,7 +259,8 @@ func c07cBody(r *simcore.Run) {
 	cfg.FileSize = r.Pick(1<<20, 4096, 1024)
 	cfg.IdxNodeSize = 4096
 	cfg.sig(r)
-	ctx := context.Background()
+	ctx, cancelRun := context.WithCancel(context.Background())
+	r.OnStop(cancelRun) // writers waiting for acknowledgements give up as soon as the run is over
 
 	nRep := 1 + r.Intn(2)
 	env := &c07cEnv{r: r, sync: r.Pct(70), skip: r.Pct(40), refuse: make([]int, nRep), altered: make([]bool, nRep), discards: make([]int, nRep), ackedTo: make([]uint64, nRep)}
@@ -275,6 +288,7 @@ func c07cBody(r *simcore.Run) {
 	}
 	conc := r.Pick(1, 2, 4)
 	prefetch := r.Pick(1, 2, 8)
+	tornDown := false
 	open := func(i int) {
 		d, err := openDB(r, repDirs[i], cfg, nil)
 		if err != nil {
@@ -298,6 +312,10 @@ func c07cBody(r *simcore.Run) {
 		t, err := replication.NewTxReplicator(uuid, d, opts, &c07cLogger{env: env, rep: i})
 		if err != nil {
 			r.Trouble("NewTxReplicator: %v", err)
+		}
+		if r.Failed() || tornDown {
+			// the run is over and being wound down: nothing new is started
+			return
 		}
 		txrs[i] = t
 		if err := t.Start(); err != nil {
@@ -326,6 +344,7 @@ func c07cBody(r *simcore.Run) {
 	})
 	r.Defer(func() {
 		// (cleanups run in reverse order: the replicators stop before the databases close)
+		tornDown = true
 		for _, t := range txrs {
 			if t != nil {
 				t.Stop()
@@ -431,8 +450,8 @@ func c07cBody(r *simcore.Run) {
 		r.Fault("replica-restart")
 		after, _ := reps[i].CurrentState()
 		r.Logf("monitor: replica %d restarted: committed %d -> %d, precommitted %d -> %d", i, before.TxId, after.TxId, before.PrecommittedTxId, after.PrecommittedTxId)
-		if after.TxId >= before.TxId && after.PrecommittedTxId < before.PrecommittedTxId && env.discards[i] > 0 {
-			r.Finding("replica-lost-acknowledged", "C07:discarded-precommits-reloaded-at-restart", "replica %d held durably precommitted tx %d before a clean restart and %d after it: earlier its replicator had discarded precommitted transactions, which stay in the tx log in front of the transactions fetched afterwards; the recovery at open reloads the discarded ones and drops the later, acknowledged ones", i, before.PrecommittedTxId, after.PrecommittedTxId)
+		if after.TxId >= before.TxId && (after.PrecommittedTxId < before.PrecommittedTxId || (after.PrecommittedTxId == before.PrecommittedTxId && !bytes.Equal(after.PrecommittedTxHash, before.PrecommittedTxHash))) && env.discards[i] > 0 {
+			r.Finding("replica-lost-acknowledged", "C07:discarded-precommits-reloaded-at-restart", "replica %d held durably precommitted tx %d before a clean restart and %d after it: earlier its replicator had discarded precommitted transactions, which stay in the tx log in front of the transactions fetched afterwards; the recovery at open reloads the discarded ones and drops the later, acknowledged ones (same id with another accumulated hash: %v)", i, before.PrecommittedTxId, after.PrecommittedTxId, after.PrecommittedTxId == before.PrecommittedTxId)
 			r.EndRun()
 		}
 		if after.TxId < before.TxId || after.PrecommittedTxId < before.PrecommittedTxId {
